@@ -19,7 +19,9 @@
 (*   story, item : Ref  - the story / item reference the class uses        *)
 (*   ids         : Seq(Ref) - listed IDs (delete/move/swap sources, ...)   *)
 (*   carried     : Seq(Node) - stories / items / metadata carried          *)
-(*   stok, hdr, bodyPos, body : roStorySend only - the element's own tok,  *)
+(*   stok : roStorySend / roReplace - the message element's own tok (its    *)
+(*       attributes), which becomes the story's / the roCreate's           *)
+(*   hdr, bodyPos, body : roStorySend only -                                *)
 (*       its children other than <storyBody>, the position <storyBody> had *)
 (*       among them (0 = absent), and the children of <storyBody>          *)
 (***************************************************************************)
@@ -178,7 +180,8 @@ Shaped(m) ==
 Retag(c) == IF c.tag = "storyItem" THEN [c EXCEPT !.tag = "item"] ELSE c
 Flatten(m) ==
   Nd("story", m.story.id, m.stok,
-     InsertAt(m.hdr, m.bodyPos, [i \in DOMAIN m.body |-> Retag(m.body[i])]))
+     IF m.bodyPos = 0 THEN m.hdr          \* no <storyBody> (not schema-shaped): nothing to splice
+     ELSE InsertAt(m.hdr, m.bodyPos, [i \in DOMAIN m.body |-> Retag(m.body[i])]))
 
 (* ---------------------------------------------------------------------- *)
 (* roMetadataReplace                                                      *)
@@ -271,8 +274,12 @@ MergeOpen(ro, m) ==
          { Result([ro EXCEPT !.kids = MdrFold(ro.kids, m.carried)], Ok(<<>>, <<>>)) }
     [] m.cls = "ReadyToAir" ->
          { Result(ro, Ok(<<>>, <<>>)) }
-    [] m.cls = "RunningOrderReplace" ->
-         { Result([ro EXCEPT !.kids = m.carried], Ok(<<>>, <<>>)) }
+    [] m.cls = "RunningOrderReplace" ->      \* the new <roCreate> is the sent <roReplace>: its children and its own attributes
+         { Result([ro EXCEPT !.kids = m.carried,
+                             !.root = [i \in DOMAIN ro.root |->
+                                         IF ro.root[i].tag = "roCreate" THEN [ro.root[i] EXCEPT !.tok = m.stok]
+                                         ELSE ro.root[i]]],
+                  Ok(<<>>, <<>>)) }
     [] m.cls = "RunningOrderEnd" ->
          { Result([ro EXCEPT !.root = Append(ro.root, Nd("mosromgrmeta", None, None, m.carried))],
                   Ok(<<>>, <<>>)) }
